@@ -19,7 +19,7 @@ CONSTANTS
   EmitDyn = FALSE
   Times <- TimesT
   Tol = 0
-  DriftTolE12 = 100000
+  DriftTolE12 = 10000
 INVARIANT Verdict
 INVARIANT TotalsKept
 CHECK_DEADLOCK FALSE
